@@ -266,6 +266,9 @@ class TriggerHandlerDecorator(Decorator, ABC):
     async def handle_dispatch(self, data: DispatchData) -> bool | None:
         """Handle a trigger dispatch call. Return False for stop dispatching."""
 
+    def dispatch_accepted(self, data: DispatchData) -> None:  # noqa: B027
+        """Called when all the handlers have accepted a trigger dispatch."""
+
 
 class CallHandlerDecorator(Decorator, ABC):
     """Base class for call-based handlers."""
